@@ -752,6 +752,58 @@ def reps_stage(ctx, exe, d, maxfrom, maxto):
     ctx.sample(dict(kind="sre-expand-reps", from_to=pairs[-2], impl=ires[-2], model=mres[-2]))
 
 
+def ge_stage(ctx, exe, d, rng, n):
+    """K-inner: regexp-match>=? of regexp.scm (through the module environment, on constructed Regexp-Match records) against the
+    model's match_ge (totality and leftmost-longest proved): every pair of one-pair vectors over {#f,0,1,2} with and without a
+    non-greedy end slot, plus n random pairs of vectors with 2-3 pairs"""
+    vals = [-1, 0, 1, 2]
+    cases = [(ng, (a, b), (c, e)) for ng in ((), (1,)) for a in vals for b in vals for c in vals for e in vals]
+    for _ in range(n):
+        k = rng.choice([2, 2, 3])
+        def vec():
+            out = []
+            for _ in range(k):
+                a = rng.choice([-1, 0, 1, 2, 3])
+                b = rng.choice([-1, a, a + 1, a + 2, rng.choice([0, 1, 2, 3, 4])])
+                out += [a, b if a >= 0 or rng.random() < 0.2 else -1]
+            return tuple(out)
+        v1 = vec()
+        v2 = tuple(x if rng.random() < 0.6 else y for x, y in zip(v1, vec()))
+        ng = tuple(sorted(set(rng.choice([1, 3, 5][:k]) for _ in range(rng.choice([0, 1, 1, 2])))))
+        cases.append((ng, v1, v2))
+    with tempfile.NamedTemporaryFile("w", suffix=".c20", dir=B.SCRATCH, delete=False) as fh:
+        fh.write("(0 ge%s)\n" % "".join(" ((%s) (%s) (%s))" % (" ".join(map(str, ng)), " ".join(map(str, v1)), " ".join(map(str, v2))) for ng, v1, v2 in cases))
+        path = fh.name
+    try:
+        p = B.run_chibi(d, [DRIVER, path], timeout=300)
+    finally:
+        os.unlink(path)
+    line = [l for l in p.stdout.split("\n") if l.startswith("0 ")]
+    if not line or not line[0].startswith("0 Q "):
+        ctx.broken("inner-correspondence:regexp-match>=?", "regexp-match>=? could not be called in (chibi regexp): %s %s" % (line[:1], p.stderr[-300:]))
+        return
+    ires = line[0].split(" ")[2:]
+    f = lambda v: ",".join("x" if x < 0 else str(x) for x in v)
+    mres = ctx.run_model(exe, ["Q %s | %s | %s" % (",".join(map(str, ng)) or "_", f(v1), f(v2)) for ng, v1, v2 in cases])
+    nbroken = 0
+    for (ng, v1, v2), i, m in zip(cases, ires, mres):
+        ctx.count(1, key=("ge", ng, v1, v2), nontrivial=v1 != v2)
+        ctx.cov["traces_validated_against_impl"] += 1
+        if i != m:
+            s1, e1, s2, e2 = v1[0], v1[1], v2[0], v2[1]
+            if min(s1, e1, s2, e2) >= 0 and s1 <= e1 and s2 <= e2 and (s1, e1) != (s2, e2):
+                # complete whole-match slots: the proved law decides
+                want = s1 < s2 or (s1 == s2 and (e1 <= e2 if 1 in ng else e2 <= e1))
+                if (i == "1") != want:
+                    ctx.violation("regexp-match>=?:not-leftmost-longest", input=dict(non_greedy_indexes=list(ng), m1=list(v1), m2=list(v2)),
+                                  observed=i, expected=m, replay="(regexp-match>=? m1 m2) inside (chibi regexp) with the vectors of input (see harness/c20_driver.scm, case ge)")
+                    continue
+            nbroken += 1
+            if nbroken <= 3:
+                ctx.broken("inner-correspondence:regexp-match>=?", "ng=%s m1=%s m2=%s: code %s, model %s" % (ng, v1, v2, i, m))
+    ctx.sample(dict(kind="regexp-match>=?", case=cases[-1], impl=ires[-1], model=mres[-1]))
+
+
 def char_stage(ctx, exe, d, cps):
     """character-level functions on every code point the run uses: the model's [fold] must induce exactly the
     pattern-char -> subject-char relation that char-set-ci (upcase/downcase closure) induces, and [is_word] must be
@@ -853,10 +905,16 @@ def run(ctx):
         go([(r, rng.sample(strs4, 12)) for r in small[2]], "all-depth2-small")
     else:
         go([(r, rng.sample(strs4, 12)) for r in rng.sample(small[2], 300)], "slice-depth2-small")
-    # depth-2 over the full operator set: seeded slice
     strs3 = all_strings(alpha4, 3)
+    # a submatch under a repetition whose body is itself an operator (stale spans from an earlier iteration): exhaustive family
+    loops = [lambda a: ('star', True, a), lambda a: ('plus', a), lambda a: ('rep', '**', True, 1, 3, a), lambda a: ('rep', '>=', True, 1, None, a),
+             lambda a: ('star', False, a)]
+    fam = [lp(('sub', u(at))) for lp in loops for u in UNARY_FULL for at in (('chr', ('c', A_)), ('chr', ('r', A_, B_)), ('chr', ('any',)))]
+    fam += [lp(('seq', ('sub', u(('chr', ('c', A_)))), ('opt', True, ('chr', ('c', B_))))) for lp in loops for u in UNARY_FULL]
+    go([(r, rng.sample(strs3, 20 if T else 8) + rng.sample(strs4, 10 if T else 4)) for r in fam], "submatch-in-loop")
+    # depth-2 over the full operator set: seeded slice
     cases = []
-    for _ in range(5000 if T else 300):
+    for _ in range(10000 if T else 300):
         if rng.random() < 0.5:
             r = rng.choice(UNARY_FULL)(rng.choice(lv[1]))
         else:
@@ -865,7 +923,7 @@ def run(ctx):
     go(cases, "slice-depth2-full")
     # -------------------------------------------------------------- random deep SREs
     cases = []
-    for _ in range(20000 if T else 400):
+    for _ in range(40000 if T else 400):
         alpha = rng.choice([[A_, B_, C_], [A_, B_, NL], [A_, B_, UA, NL], [A_, UA, B_, 0x20]])
         r = rand_sre(rng, alpha, rng.choice([2, 3, 3, 4, 4, 5]))
         cases.append((r, rand_strings(rng, alpha, 10 if T else 8, 12)))
@@ -874,7 +932,7 @@ def run(ctx):
     ualpha = [UNI["latin1"][0], UNI["latin1"][1], UNI["greek"][0], UNI["greek"][1], UNI["cyr"][0], UNI["cyr"][1], UNI["cyr2"][0], UNI["cyr2"][1],
               UNI["deseret"][0], UNI["deseret"][1], UNI["cjk"], A_, UA, UNI["digit"], UNI["under"], UNI["space"], NL]
     cases = []
-    for _ in range(6000 if T else 150):
+    for _ in range(10000 if T else 150):
         alpha = rng.sample(ualpha, 4)
         r = rand_sre(rng, alpha, rng.choice([1, 2, 3]))
         if rng.random() < 0.6:
@@ -919,6 +977,7 @@ def run(ctx):
     astrs = list(strs3) + rand_strings(rng, ualpha, 2000 if T else 200, 8) + rand_strings(rng, [A_, UNI["under"], UNI["digit"], 0x20, NL, 0x2d], 2000 if T else 200, 8)
     anchor_stage(ctx, exe, d, astrs)
     reps_stage(ctx, exe, d, 6 if T else 4, 9 if T else 6)
+    ge_stage(ctx, exe, d, rng, 20000 if T else 2000)
     for x in astrs:
         used.update(x)
     char_stage(ctx, exe, d, used)
@@ -942,6 +1001,10 @@ def replay(ctx, data):
     for c in data.get("failing_cases", []):
         inp = c.get("input", {})
         print(json.dumps(dict(sig=c.get("sig"), input=inp, expected=c.get("expected"), observed=c.get("observed")), indent=1))
-        print("replay:", c.get("replay", "").replace("$D", d))
+        cmd = c.get("replay", "").replace("$D", d)
+        print("replay:", cmd)
+        if cmd.startswith("printf"):
+            r = subprocess.run(cmd, shell=True, capture_output=True, text=True, timeout=120, env=B.chibi_env(d))
+            print("implementation now answers:", (r.stdout + r.stderr).strip()[:500])
         n += 1
     return 1 if n else 0
